@@ -101,7 +101,14 @@ type plan struct {
 	// FlushHeld: instead of holding a scan, hold a FLUSH (at the flush.tmpwritten hook: the new
 	// file is written, nothing is swapped in yet) and run a complete scan meanwhile
 	FlushHeld bool
-	Note      string
+	// Env: the scan's ENVIRONMENT changes while it is held (after the first row: the truncation
+	// bound of a scan is computed when fileStore.iterate begins): the database clock is moved
+	// past retention boundaries (a much later point for another key, VerifAdvanceClock), the
+	// table is altered, flushes are forced; every key has data in the file AND in the memstore,
+	// and the file sequences end between (clock at scan start - retention) and (new clock -
+	// retention).  Retention is 10 periods.
+	Env  bool
+	Note string
 }
 
 func genVals(r *hk.Rng) map[string]interface{} {
@@ -133,6 +140,8 @@ func genPlan(r *hk.Rng) *plan {
 		pl.SQL = hk.Pick(r, sqlForms)
 	} else if r.Chance(1, 6) {
 		pl.FlushHeld = true
+	} else if r.Chance(1, 4) {
+		return genEnvPlan(r, pl)
 	}
 	nk := r.Range(2, 6)
 	n := r.Range(3, 14)
@@ -167,6 +176,52 @@ func genPlan(r *hk.Rng) *plan {
 				o = opT{Kind: "flush"}
 			}
 			pl.Gates[j] = append(pl.Gates[j], o)
+		}
+	}
+	return pl
+}
+
+func genEnvPlan(r *hk.Rng, pl *plan) *plan {
+	pl.Env = true
+	pl.S.Retention = 10 * pl.S.Res
+	nk := r.Range(3, 5)
+	for k := 0; k < nk; k++ {
+		pl.Pre = append(pl.Pre, opT{Kind: "ingest", Key: k, Period: r.Range(0, 2), Sub: r.Range(1, 900), Vals: genVals(r)})
+	}
+	if r.Chance(1, 3) {
+		pl.Pre = append(pl.Pre, opT{Kind: "ingest", Key: nk, Period: 1, Sub: 5, Vals: genVals(r)}) // a file-only key
+	}
+	pl.Pre = append(pl.Pre, opT{Kind: "flush"})
+	for k := 0; k < nk; k++ {
+		pl.Pre = append(pl.Pre, opT{Kind: "ingest", Key: k, Period: r.Range(7, 8), Sub: r.Range(1, 900), Vals: genVals(r)})
+	}
+	if r.Chance(1, 3) {
+		pl.Pre = append(pl.Pre, opT{Kind: "ingest", Key: nk + 1, Period: 8, Sub: 5, Vals: genVals(r)}) // a memstore-only key
+	}
+	// first environment change after row j >= 1, more later
+	j := r.Range(1, nk-1)
+	far := opT{Kind: "ingest", Cat: "far-key", Period: r.Range(19, 30), Sub: r.Range(1, 900), Vals: genVals(r)}
+	switch r.Intn(4) {
+	case 0:
+		pl.Gates[j] = append(pl.Gates[j], opT{Kind: "advance", Period: r.Range(19, 30)})
+	case 1:
+		pl.Gates[j] = append(pl.Gates[j], opT{Kind: "alter"}, far)
+	default:
+		pl.Gates[j] = append(pl.Gates[j], far)
+	}
+	for x := r.Intn(3); x > 0; x-- {
+		g := r.Range(j, nk)
+		switch r.Intn(5) {
+		case 0:
+			pl.Gates[g] = append(pl.Gates[g], opT{Kind: "flush"})
+		case 1:
+			pl.Gates[g] = append(pl.Gates[g], opT{Kind: "alter"})
+		case 2:
+			pl.Gates[g] = append(pl.Gates[g], opT{Kind: "advance", Period: r.Range(31, 40)})
+		case 3:
+			pl.Gates[g] = append(pl.Gates[g], opT{Kind: "ingest", Cat: "ud-same", Sub: r.Range(1, 900), Pick: r.Intn(1000), Vals: genVals(r)})
+		default:
+			pl.Gates[g] = append(pl.Gates[g], opT{Kind: "ingest", Cat: "far-key", Period: r.Range(31, 40), Sub: r.Range(1, 900), Vals: genVals(r)})
 		}
 	}
 	return pl
@@ -215,6 +270,18 @@ func handMade(i int) *plan {
 		pl.Note = "a complete scan while a flush is held between writing the new file and swapping it in"
 		pl.FlushHeld = true
 		pl.Pre = []opT{in(0, 0, 1, 2), in(1, 0, 16, 32), {Kind: "flush"}, in(0, 1, 64, 128), in(2, 0, 256, 512)}
+	case 7:
+		pl.Note = "environment: after the first row a much later point for ANOTHER key moves the clock past the retention boundary of the file data of the keys not yet delivered (a per-row truncateBefore drops it)"
+		pl.Env = true
+		s.Retention = 10 * s.Res
+		pl.Pre = []opT{in(0, 0, 1, 2), in(1, 1, 16, 32), in(2, 0, 64, 128), {Kind: "flush"}, in(0, 8, 4, 8), in(1, 8, 256, 512), in(2, 7, 1024, 2048)}
+		pl.Gates[1] = []opT{{Kind: "ingest", Cat: "far-key", Period: 25, Sub: 500, Vals: v(4096, 8192)}}
+	case 8:
+		pl.Note = "environment: ALTER TABLE (a field is added) and VerifAdvanceClock while the scan is held after its first row"
+		pl.Env = true
+		s.Retention = 10 * s.Res
+		pl.Pre = []opT{in(0, 0, 1, 2), in(1, 1, 16, 32), {Kind: "flush"}, in(0, 8, 4, 8), in(1, 8, 256, 512)}
+		pl.Gates[1] = []opT{{Kind: "alter"}, {Kind: "advance", Period: 25}}
 	default:
 		return nil
 	}
@@ -410,6 +477,8 @@ type runner struct {
 	events  []interface{} // the model's schedule, as observed
 	implOut []interface{} // per event: nil, or the row JSON to compare with the model
 	newKeys int
+	farKeys int
+	altered bool
 	cats    map[string]int
 }
 
@@ -439,6 +508,33 @@ func (rn *runner) flush() bool {
 	rn.events = append(rn.events, map[string]interface{}{"ev": "flush", "raw": raw})
 	rn.implOut = append(rn.implOut, nil)
 	return true
+}
+
+// alter adds a field to the table (ALTER through ApplySchema) and waits until the table has it.
+func (rn *runner) alter() bool {
+	if rn.altered {
+		return true
+	}
+	if !rn.db.Quiesce(waitLimit) {
+		return false
+	}
+	s2 := *rn.pl.S
+	s2.Fields = append(append([]dbk.FieldDef{}, rn.pl.S.Fields...), sumField("zx", "zz"))
+	err := rn.db.DB.ApplySchema(zenodb.Schema{s2.Table: &zenodb.TableOpts{Name: s2.Table, RetentionPeriod: s2.Retention, SQL: s2.SQL(),
+		MinFlushLatency: 10000 * time.Hour, MaxFlushLatency: 20000 * time.Hour}})
+	if err != nil {
+		rn.ctx.Res.Note("case %d: ALTER failed: %v", rn.idx, err)
+		return false
+	}
+	for t0 := time.Now(); time.Since(t0) < waitLimit; time.Sleep(200 * time.Microsecond) {
+		for _, f := range rn.db.VerifFields(s2.Table) {
+			if f.Name == "zx" {
+				rn.altered = true
+				return rn.db.Quiesce(waitLimit)
+			}
+		}
+	}
+	return false
 }
 
 type preRow struct {
@@ -495,6 +591,10 @@ func (rn *runner) resolve(o opT, pre map[string]*preRow, order []string, deliver
 		}
 	}
 	cat := o.Cat
+	if cat == "far-key" {
+		rn.farKeys++
+		return fmt.Sprintf("z%d", rn.farKeys), tsOf(rn.pl.S, o.Period, o.Sub), cat
+	}
 	if (cat == "ud-same" || cat == "ud-new") && len(ud) == 0 {
 		cat = "delivered"
 	}
@@ -611,6 +711,9 @@ func (rn *runner) request() map[string]interface{} {
 	}
 	if rn.pl.FlushHeld {
 		req["flushHeld"] = true
+	}
+	if rn.pl.Env {
+		req["clock"] = true
 	}
 	return req
 }
@@ -909,6 +1012,32 @@ loop:
 					ctx.Res.Hit("inscan:flush")
 					continue
 				}
+				if o.Kind == "advance" || o.Kind == "alter" || o.Cat == "far-key" {
+					// a change of the scan's environment: interesting when a row with file data
+					// is still to come
+					for _, ks := range order {
+						if !delivered[ks] {
+							interesting = true
+						}
+					}
+				}
+				if o.Kind == "advance" {
+					t := tsOf(s, o.Period, 0)
+					db.VerifAdvanceClock(t)
+					rn.events = append(rn.events, map[string]interface{}{"ev": "advance", "t": fmt.Sprint(t.UnixNano())})
+					rn.implOut = append(rn.implOut, nil)
+					ctx.Res.Hit("inscan:advance-clock")
+					continue
+				}
+				if o.Kind == "alter" {
+					if !rn.alter() {
+						ctx.Res.Note("case %d: ALTER did not take effect within %v while the scan was held after %d rows", idx, waitLimit, pm.n)
+						abort()
+						return true, nil
+					}
+					ctx.Res.Hit("inscan:alter")
+					continue
+				}
 				name, ts, cat := rn.resolve(o, pre, order, delivered)
 				if err := rn.ingest(name, ts, o.Vals); err != nil {
 					ctx.Res.Hit("insert-error")
@@ -958,11 +1087,17 @@ loop:
 	if !db.Quiesce(waitLimit) {
 		return true, nil
 	}
-	final, forder, err := rn.fullView()
-	if err != nil {
-		return true, nil
+	if !rn.altered {
+		// (ALTER is not part of the model: after it only the deliveries are compared)
+		final, forder, err := rn.fullView()
+		if err != nil {
+			return true, nil
+		}
+		rn.viewEvents(final, forder)
 	}
-	rn.viewEvents(final, forder)
+	if pl.Env {
+		ctx.Res.Hit("env-plan")
+	}
 
 	req := rn.request()
 	ctx.Res.Count(req, interesting)
